@@ -104,7 +104,13 @@ def run_threads(scn, observers=()):
                     raise HarnessError(f"unknown epilogue step {step}")
 
         sched.spawn(main, "main")
-        err = sched.run()
+        if scn.get("seam") == "L2":
+            from .l2 import Installed
+
+            with Installed(world, sync=True):
+                err = sched.run()
+        else:
+            err = sched.run()
     finally:
         sut.synchronization.threading = real_threading
         tsched.set_sched(None)
